@@ -184,3 +184,16 @@ package kgo
 //@   ensures forall k in 0..len(b) :: r[k] == old(b[k])
 //@   ensures n == 0 ==> (r[len(b)] == 102 && r[len(b)+1] == 97 && r[len(b)+2] == 108 && r[len(b)+3] == 115 && r[len(b)+4] == 101)
 //@   ensures n != 0 ==> (r[len(b)] == 116 && r[len(b)+1] == 114 && r[len(b)+2] == 117 && r[len(b)+3] == 101)
+
+// The reader side's fixed-size reads. readSize(n) (next empties the buffer before every field): no panic for any n (a negative size is an error; the buffer grows in chunks of at most 64 KiB, never by
+// the claimed size at once); nil means exactly n bytes were read; io.EOF means nothing was. next hands a
+// fixed-size field's parser at least its declared size (the numeric closures' requires above).
+//@ func (r *RecordReader) readSize(n int) (err error)
+//@   prop C20
+//@   nopanic
+//@   ensures [nil-means-exactly-n-bytes] err == nil ==> (len(r.buf) >= n && (old(len(r.buf)) <= n ==> len(r.buf) == n))
+//@   ensures [eof-means-nothing-read] err == io.EOF ==> len(r.buf) == 0
+//@   loop 0 invariant len(r.buf) <= n || len(r.buf) == old(len(r.buf))
+//@ func (r *RecordReader) next(rec *Record) (err error)
+//@   prop C20
+//@   site call parse#0 assert [a-fixed-size-parser-gets-its-bytes] fn.read.size > 0 ==> len(arg0) >= fn.read.size
